@@ -93,6 +93,34 @@ Theorem C03_mentions_after_self_expansion :
     = contains_in_type (gps_new g) t || (mentions_self_ty t && has_params g).
 Proof. exact contains_in_type_expand_this. Qed.
 
+(** ... tied to the generator: what [build_by_item_struct_core] hands a builder ([fields_for], GenTop.v) is the item's own
+    field entries for every trait but the operators, and for those each entry with `Self` written out - whose type then
+    mentions a parameter exactly as the previous theorem says *)
+Definition is_operator (k : kind) : bool :=
+  match k with KBin _ | KAssign _ | KUn _ => true | _ => false end.
+
+Theorem C03_fields_seen_by_the_builders :
+  forall s k fs,
+    (is_operator k = false -> fields_for s k fs = fs) /\
+    (is_operator k = true -> gps_contains (gps_new (s_generics s)) "Self" = false ->
+     length (fields_for s k fs) = length fs /\
+     forall f, In f (fields_for s k fs) ->
+       exists f0, In f0 fs /\ fe_index f = fe_index f0 /\ fe_hattrs f = fe_hattrs f0 /\
+                  f_name (fe_field f) = f_name (fe_field f0) /\
+                  f_ty (fe_field f) = expand_self_ty (this_ty_of (s_name s) (s_generics s)) (f_ty (fe_field f0)) /\
+                  contains_in_type (gps_new (s_generics s)) (f_ty (fe_field f))
+                  = contains_in_type (gps_new (s_generics s)) (f_ty (fe_field f0))
+                    || (mentions_self_ty (f_ty (fe_field f0)) && has_params (s_generics s))).
+Proof.
+  intros s k fs. split.
+  - destruct k; cbn [is_operator fields_for]; try discriminate; reflexivity.
+  - intros Hk Hself. assert (fields_for s k fs = map (fentry_expand_self (this_ty_of (s_name s) (s_generics s))) fs) as ->.
+    { destruct k; cbn [is_operator] in Hk; try discriminate Hk; reflexivity. }
+    split; [apply map_length|]. intros f Hf. apply in_map_iff in Hf as (f0 & <- & Hf0).
+    exists f0. cbn [fentry_expand_self fe_index fe_hattrs fe_field f_name f_ty]. repeat split; try assumption.
+    apply contains_in_type_expand_this, Hself.
+Qed.
+
 Example C03_self_field :
   let g := {| g_params := [GPLt "a" []; GPTy "T" [] None]; g_where := [] |} in
   let w_self := TyPath None false [Seg "W" (SAAngle [GTy self_ty_kw])] in
@@ -110,3 +138,4 @@ Print Assumptions C03_mentions_characterised.
 Print Assumptions C03_no_parameters_no_default_bounds.
 Print Assumptions C03_mentions_only_heads.
 Print Assumptions C03_mentions_after_self_expansion.
+Print Assumptions C03_fields_seen_by_the_builders.
